@@ -76,7 +76,8 @@ def main():
     ap.add_argument("--runs", type=int, default=0)
     ap.add_argument("--json")
     args = ap.parse_args()
-    todo = [c for c in cases() if not args.only or args.only in c["name"]]
+    wanted = [w for w in (args.only or "").split(",") if w]
+    todo = [c for c in cases() if not wanted or any(w in c["name"] for w in wanted)]
     with ThreadPoolExecutor(max_workers=args.jobs) as ex:
         done = list(ex.map(lambda c: run_case(c, args.tier, args.runs), todo))
     bad = 0
